@@ -6,7 +6,7 @@ import TemporalModel.Model.RelativeZoned
 import TemporalModel.Lemmas.SafeBase
 namespace TemporalModel
 
-theorem toNsIn_none (dt : IsoDateTime) : toNsIn none dt = dt.asNanoseconds := rfl
+theorem toNsIn_none (dt : IsoDateTime) : toNsIn none dt = dt.utcEpochNs := rfl
 
 theorem nudgeCalendarUnitZ_none (sign destNs : Int) (dt : IsoDateTime) (date : Dur) (o : Resolved) :
     nudgeCalendarUnitZ none sign destNs dt date o = nudgeCalendarUnit sign destNs dt date o := rfl
